@@ -173,7 +173,7 @@ type Scenario struct {
 	HoldBudget int
 	HoldDepth  int
 	Mode       QueueMode
-	MaxStates        int
+	MaxStates  int
 	// map-order exploration: number of single-site deviations tried per step (0 = default order only)
 	MapOrderDeviations bool
 }
@@ -225,7 +225,7 @@ type Explorer struct {
 	// the abstraction's own graph: outgoing edges per state
 	out       map[uint64][]absEdge
 	terminals hashSet
-	Splits int // split steps: release transitions executed
+	Splits    int // split steps: release transitions executed
 	// realized is the schedule the last RealizeExact call really executed (blockers and pulled-forward steps included)
 	realized []Trans
 }
